@@ -2,7 +2,7 @@
    Third-party code appears as universally quantified functions (the Section variables of
    Misc/Prov.v): clearsign_decode, check_sig, sha256, yaml_meta_ok, yaml_sums. *)
 From Coq Require Import List String Ascii Bool.
-From Helm Require Import Common.Assoc Misc.Prov Misc.ProvProofs.
+From Helm Require Import Common.Assoc Misc.Prov Misc.ProvProofs Misc.ProvTrust Misc.ProvTrustProofs Gen.C17Strategy Misc.ProvSource.
 Import ListNotations.
 Local Open Scope string_scope.
 
@@ -206,3 +206,172 @@ Theorem C17_dep_build_unrepaired_refuted :
                    (dep_build_strategy_unrepaired true) kr (Some a) None name = true.
 Proof. exact dep_build_unrepaired_refuted. Qed.
 Print Assumptions C17_dep_build_unrepaired_refuted.
+
+(* ------------------------------------------------------------------ who is trusted *)
+(* provenance.Signatory{Entity, KeyRing}: whether verification succeeds — and with which signer
+   and FileHash — does not depend on the signatory's Entity (the signing key): the trusted keys
+   are exactly the KeyRing. *)
+Theorem C17_trust_is_the_keyring_only :
+  forall (keyring key sigbody signer : Type)
+         (clearsign_decode : string -> option (string * sigbody))
+         (check_sig : keyring -> string -> sigbody -> option signer)
+         (sha256 : string -> string) (yaml_meta_ok : string -> bool)
+         (yaml_sums : string -> option (list (string * string)))
+         (s : signatory keyring key) (e' : option key) (prov name archive : string),
+    signatory_verify keyring key sigbody signer clearsign_decode check_sig sha256 yaml_meta_ok yaml_sums s prov name archive =
+    signatory_verify keyring key sigbody signer clearsign_decode check_sig sha256 yaml_meta_ok yaml_sums
+                     (mkSignatory e' (s_keyring s)) prov name archive.
+Proof. exact trust_is_the_keyring_only. Qed.
+Print Assumptions C17_trust_is_the_keyring_only.
+
+(* C17_verify_iff for a signatory with an arbitrary Entity: the signature clause reads the
+   KeyRing *)
+Theorem C17_signatory_verify_iff :
+  forall (keyring key sigbody signer : Type)
+         (clearsign_decode : string -> option (string * sigbody))
+         (check_sig : keyring -> string -> sigbody -> option signer)
+         (sha256 : string -> string) (yaml_meta_ok : string -> bool)
+         (yaml_sums : string -> option (list (string * string)))
+         (s : signatory keyring key) (prov name archive : string) (by_ : signer) (h : string),
+    signatory_verify keyring key sigbody signer clearsign_decode check_sig sha256 yaml_meta_ok yaml_sums s prov name archive = VOk by_ h <->
+    exists msg sg p0 p1 rest files,
+      clearsign_decode prov = Some (msg, sg) /\
+      check_sig (s_keyring s) (canon msg) sg = Some by_ /\
+      split_sep DOTS msg = p0 :: p1 :: rest /\
+      yaml_meta_ok p0 = true /\
+      yaml_sums p1 = Some files /\
+      aget name files = Some ("sha256:" ++ sha256 archive) /\
+      h = "sha256:" ++ sha256 archive.
+Proof. exact signatory_verify_iff. Qed.
+Print Assumptions C17_signatory_verify_iff.
+
+(* CheckDetachedSignature answers with an entity of the key list it is given (hypothesis on the
+   library): an accepted chart was signed by a key of the KeyRing — whatever Entity the
+   signatory carries *)
+Theorem C17_signer_in_keyring :
+  forall (keyring key sigbody signer : Type)
+         (clearsign_decode : string -> option (string * sigbody))
+         (check_sig : keyring -> string -> sigbody -> option signer)
+         (sha256 : string -> string) (yaml_meta_ok : string -> bool)
+         (yaml_sums : string -> option (list (string * string)))
+         (ring_has : keyring -> signer -> Prop),
+    (forall kr bytes sg by_, check_sig kr bytes sg = Some by_ -> ring_has kr by_) ->
+    forall (s : signatory keyring key) (prov name archive : string) (by_ : signer) (h : string),
+      signatory_verify keyring key sigbody signer clearsign_decode check_sig sha256 yaml_meta_ok yaml_sums s prov name archive = VOk by_ h ->
+      ring_has (s_keyring s) by_.
+Proof. exact signer_in_keyring. Qed.
+Print Assumptions C17_signer_in_keyring.
+
+(* the constructors: NewFromFiles puts the key file into Entity and the keyring file into
+   KeyRing; NewFromKeyring's KeyRing is the file's keyring, its Entity (if any) one of the
+   keyring's entities, none for the empty id; VerifyChart verifies with NewFromKeyring(file, "") *)
+Theorem C17_constructors_keep_the_ring :
+  forall (keyring key sigbody signer : Type)
+         (clearsign_decode : string -> option (string * sigbody))
+         (check_sig : keyring -> string -> sigbody -> option signer)
+         (sha256 : string -> string) (yaml_meta_ok : string -> bool)
+         (yaml_sums : string -> option (list (string * string)))
+         (ring_entities : keyring -> list (key * list string)),
+    (forall keyfile ringfile s, new_from_files keyring key keyfile ringfile = Some s ->
+       exists e, keyfile = Some e /\ s_entity s = Some e /\ ringfile = Some (s_keyring s)) /\
+    (forall ringfile id s, new_from_keyring keyring key ring_entities ringfile id = Some s ->
+       ringfile = Some (s_keyring s) /\ (id = "" -> s_entity s = None) /\
+       (forall k, s_entity s = Some k -> exists names, In (k, names) (ring_entities (s_keyring s)))) /\
+    (forall (kr : option keyring) pv name a, is_tgz name = true ->
+       verify_chart keyring sigbody signer clearsign_decode check_sig sha256 yaml_meta_ok yaml_sums false kr (Some pv) name a =
+       match new_from_keyring keyring key ring_entities kr "" with
+       | Some s => signatory_verify keyring key sigbody signer clearsign_decode check_sig sha256 yaml_meta_ok yaml_sums s pv name a
+       | None => VErr EKeyring
+       end).
+Proof.
+  exact (fun keyring key sigbody signer clearsign_decode check_sig sha256 yaml_meta_ok yaml_sums ring_entities =>
+           conj (new_from_files_ring keyring key)
+                (conj (new_from_keyring_ring keyring key ring_entities)
+                      (verify_chart_signatory keyring key sigbody signer clearsign_decode check_sig sha256 yaml_meta_ok yaml_sums ring_entities))).
+Qed.
+Print Assumptions C17_constructors_keep_the_ring.
+
+(* the variant that prepends the signatory's Entity to the key list (an independently seeded
+   change): signatory {Entity 7, KeyRing [8]}, chart signed by 7 — the code's rule rejects, the
+   variant accepts *)
+Theorem C17_entity_trusting_variant_refuted :
+  signatory_verify (list nat) nat nat nat tv_decode tv_check (fun a => a) (fun _ => true) ex_sums
+                   (mkSignatory (Some 7) [8]) "PROV" "a-1.tgz" "d1" = VErr ESig /\
+  signatory_verify_entity_first (list nat) nat nat nat tv_decode tv_check (fun a => a) (fun _ => true) ex_sums cons
+                   (mkSignatory (Some 7) [8]) "PROV" "a-1.tgz" "d1" = VOk 7 "sha256:d1".
+Proof. exact entity_trusting_variant_refuted. Qed.
+Print Assumptions C17_entity_trusting_variant_refuted.
+
+Example C17_signatory_example_accepts :
+  signatory_verify (list nat) nat nat nat tv_decode tv_check (fun a => a) (fun _ => true) ex_sums
+                   (mkSignatory (Some 8) [7; 8]) "PROV" "a-1.tgz" "d1" = VOk 7 "sha256:d1" /\
+  signatory_verify (list nat) nat nat nat tv_decode tv_check (fun a => a) (fun _ => true) ex_sums
+                   (mkSignatory None [7]) "PROV" "a-1.tgz" "d1" = VOk 7 "sha256:d1".
+Proof. exact signatory_example_accepts. Qed.
+Print Assumptions C17_signatory_example_accepts.
+
+Example C17_new_from_keyring_examples :
+  let nfk := new_from_keyring (list (nat * list string)) nat (fun r => r) (Some tv_ring) in
+  nfk "Bob <bob@example.test>" = Some (mkSignatory (Some 8) tv_ring) /\
+  nfk "Alice" = Some (mkSignatory (Some 7) tv_ring) /\
+  nfk "example.test" = None /\
+  nfk "Carol" = Some (mkSignatory None tv_ring) /\
+  nfk "" = Some (mkSignatory None tv_ring).
+Proof. exact new_from_keyring_examples. Qed.
+Print Assumptions C17_new_from_keyring_examples.
+
+(* ------------------------------------------------------------------ strategy selection *)
+(* every caller that maps flags to a VerificationStrategy — Pull.Run (--verify, --prov),
+   LocateChart (install / upgrade / template / show --verify), helm dependency update / build
+   --verify — selects VerifyAlways exactly when --verify is set, whatever else is set *)
+Theorem C17_verify_flag_selects_always :
+  forall (c : caller) (f : vflags), caller_strategy c f = VerifyAlways <-> f_verify f = true.
+Proof. exact verify_flag_selects_always. Qed.
+Print Assumptions C17_verify_flag_selects_always.
+
+(* verification required (--verify set, whatever else is set): the caller's download succeeds
+   only if archive and provenance file were fetched and VerifyChart accepted them, the FileHash
+   reported is the verified one; a missing or failing provenance is an error.  Without --verify
+   nothing is verified. *)
+Theorem C17_verify_flag_fails_closed :
+  forall (keyring sigbody signer : Type)
+         (clearsign_decode : string -> option (string * sigbody))
+         (check_sig : keyring -> string -> sigbody -> option signer)
+         (sha256 : string -> string) (yaml_meta_ok : string -> bool)
+         (yaml_sums : string -> option (list (string * string)))
+         (c : caller) (f : vflags) (kr : option keyring) (chart provf : option string) (name : string),
+    (f_verify f = true ->
+       (forall h, caller_download keyring sigbody signer clearsign_decode check_sig sha256 yaml_meta_ok yaml_sums c f kr chart provf name = DOk h ->
+          exists a pv by_ hh, chart = Some a /\ provf = Some pv /\
+            verify_chart keyring sigbody signer clearsign_decode check_sig sha256 yaml_meta_ok yaml_sums false kr (Some pv) name a = VOk by_ hh /\ h = Some hh) /\
+       (forall a, chart = Some a ->
+          (provf = None \/ exists pv e, provf = Some pv /\
+             verify_chart keyring sigbody signer clearsign_decode check_sig sha256 yaml_meta_ok yaml_sums false kr (Some pv) name a = VErr e) ->
+          caller_download keyring sigbody signer clearsign_decode check_sig sha256 yaml_meta_ok yaml_sums c f kr chart provf name = DErr)) /\
+    (f_verify f = false -> forall a, chart = Some a ->
+       caller_download keyring sigbody signer clearsign_decode check_sig sha256 yaml_meta_ok yaml_sums c f kr chart provf name = DOk None).
+Proof. exact verify_flag_fails_closed_all. Qed.
+Print Assumptions C17_verify_flag_fails_closed.
+
+(* the translator's reading of the source (Gen/C17Strategy.v: the value of the downloader's
+   Verify field at the DownloadTo / Build / Update call as a decision tree over the flag fields,
+   regenerated from /repo on every run) selects, for every assignment of the flags, the
+   strategy of the model; Manager.downloadAll hands the Manager's strategy through; the guard
+   of VerifyChart on LocateChart's local-file branch is the --verify flag *)
+Theorem C17_strategy_source_agrees :
+  (forall f fld, eval_s f fld pull_run_strategy_src = Some (caller_strategy CPull f)) /\
+  (forall f fld, eval_s f fld locate_chart_strategy_src = Some (caller_strategy CLocateChart f)) /\
+  (forall f fld, eval_s f fld dep_update_strategy_src = Some (caller_strategy CDepUpdate f)) /\
+  (forall f fld, eval_s f fld dep_build_strategy_src = Some (caller_strategy CDepBuild f)) /\
+  (forall f fld, eval_s f fld manager_download_all_strategy_src = Some (manager_strategy fld)) /\
+  (forall f, eval_b f locate_chart_local_guard_src = Some (f_verify f)).
+Proof. exact strategy_source_agrees. Qed.
+Print Assumptions C17_strategy_source_agrees.
+
+(* the numbering of the strategies (harness, RunC17.strat) is the source's iota order;
+   verifySignature hands s.KeyRing, and nothing else, to openpgp.CheckDetachedSignature *)
+Theorem C17_source_tables :
+  verification_strategy_consts = ["VerifyNever"; "VerifyIfPossible"; "VerifyAlways"; "VerifyLater"] /\
+  verify_signature_keys_src = "s.KeyRing".
+Proof. exact (conj strategy_consts_source signature_keys_source). Qed.
+Print Assumptions C17_source_tables.
